@@ -114,6 +114,17 @@ Theorem C12_old_oplist_not_atomic :
        alookup p fs' = Some old \/ alookup p fs' = Some new).
 Proof. exact old_oplist_not_atomic. Qed.
 
+(* The operations OpenWrite / OpenCreate / WriteAt exist in the model only so that a deviating
+   observed system-call sequence can be given crash states.  The simplest such deviation —
+   overwriting an equally long record in place — is not atomic: *)
+Theorem C12_inplace_overwrite_refuted :
+  exists fs p old new fs',
+    alookup p fs = Some old /\ len old = len new
+    /\ In fs' (crash_states fs [OpenWrite p; WriteAt p 0 new; Close p])
+    /\ alookup p fs' = Some (take 1 new ++ drop 1 old)
+    /\ alookup p fs' <> Some old /\ alookup p fs' <> Some new.
+Proof. exact inplace_overwrite_not_atomic. Qed.
+
 (* non-vacuity: a store with two sessions; saving a 3-byte record for "@a" has 10 crash states
    (4 of them inside the write), the hypotheses of C12_save_atomic hold, the record takes both
    values among them, and "@b" is the same in all of them *)
@@ -138,3 +149,4 @@ Print Assumptions C12_leftover_tmp_harmless.
 Print Assumptions C12_sampled_points_are_crash_states.
 Print Assumptions C12_old_oplist_refuted.
 Print Assumptions C12_old_oplist_not_atomic.
+Print Assumptions C12_inplace_overwrite_refuted.
